@@ -905,7 +905,10 @@ def hy_compile(
     if not get_expr:
         result += result.expr_as_stmt()
 
-    result.stmts = list(map(ResolveOuterVars().visit, result.stmts))
+    # Visit the statements as the body of one node, so that a statement
+    # that gets replaced by several (or none) is spliced in properly.
+    result.stmts = ResolveOuterVars().visit(
+        ast.Module(body=result.stmts, type_ignores=[])).body
 
     body = []
 
